@@ -191,3 +191,151 @@ def concrete_case(pool, meta, inputs):
     chk = 'false' if exp is None else f'{agree} {kv.zlist(meta["keys_out"])} {exp} ({model_fun(meta["op"])} Z Zops {mvs})'
     return {'check': algs.with_alg(ref, chk), 'defs': [dfn],
             'show': algs.with_alg(ref, f'{model_fun(meta["op"])} Z Zops {mvs}', '[]'), 'meta': {'inputs': inputs, 'output': out}}
+
+
+# ================================================================================================================
+# generated code that DIVIDES (alg.inv, alg.div): python ast -> the program type of coq/Model/SlpDiv.v (dexp / dprog).
+# New functions only; nothing above changes.  Same statement shape as program_of; the expression language gains
+#     EXPR / EXPR
+# and still refuses everything else (calls, attribute access, subscripts, floats, ** with a non-literal or negative exponent,
+# comparisons, conditional expressions, ...).
+IMPORTS_DIV = 'Model.All Model.Slp Model.SlpDiv'
+_DCON = {'XVar': 'DVar', 'XInt': 'DInt', 'XNeg': 'DNeg', 'XPow': 'DPow', 'XAdd': 'DAdd', 'XSub': 'DSub', 'XMul': 'DMul'}
+
+
+def _dexpr(e, params):
+    if isinstance(e, ast.Name):
+        if not isinstance(e.ctx, ast.Load) or e.id in params:
+            raise Untranslatable(f'parameter {e.id!r} used as a coefficient')
+        return f'(DVar {_name(e.id)})'
+    if isinstance(e, ast.Constant):
+        if type(e.value) is not int:
+            raise Untranslatable(f'constant {e.value!r}')
+        return f'(DInt {kv.Z(e.value)})'
+    if isinstance(e, ast.UnaryOp) and isinstance(e.op, ast.USub):
+        return f'(DNeg {_dexpr(e.operand, params)})'
+    if isinstance(e, ast.BinOp):
+        if isinstance(e.op, ast.Pow):
+            n = e.right
+            if not (isinstance(n, ast.Constant) and type(n.value) is int and 0 <= n.value <= MAXPOW):
+                raise Untranslatable('exponent ' + ast.dump(n))
+            return f'(DPow {_dexpr(e.left, params)} {kv.nat(n.value)})'
+        for cls, con in ((ast.Add, 'DAdd'), (ast.Sub, 'DSub'), (ast.Mult, 'DMul'), (ast.Div, 'DDiv')):
+            if isinstance(e.op, cls):
+                return f'({con} {_dexpr(e.left, params)} {_dexpr(e.right, params)})'
+        raise Untranslatable('operator ' + type(e.op).__name__)
+    raise Untranslatable('expression ' + type(e).__name__)
+
+
+def program_div_of(func, source=None):
+    """-> Gallina term : dprog (Model/SlpDiv.v) of the generated function `func` (its text may divide)."""
+    src = source_of(func) if source is None else source
+    try:
+        mod = ast.parse(src)
+    except SyntaxError as e:
+        raise Untranslatable(f'syntax: {e}')
+    if len(mod.body) != 1 or not isinstance(mod.body[0], ast.FunctionDef):
+        raise Untranslatable('not a single function definition')
+    fd = mod.body[0]
+    a = fd.args
+    if a.posonlyargs or a.kwonlyargs or a.vararg or a.kwarg or a.defaults or a.kw_defaults or fd.decorator_list:
+        raise Untranslatable('signature')
+    params = [x.arg for x in a.args]
+    body = list(fd.body)
+    if not body or not isinstance(body[-1], ast.Return):
+        raise Untranslatable('no final return')
+    unpack, assigned = [], set()
+    for i, prm in enumerate(params):
+        if i >= len(body) - 1:
+            raise Untranslatable('missing unpacking of ' + prm)
+        st = body[i]
+        if not (isinstance(st, ast.Assign) and len(st.targets) == 1 and isinstance(st.targets[0], (ast.List, ast.Tuple))
+                and isinstance(st.value, ast.Name) and st.value.id == prm
+                and all(isinstance(t, ast.Name) for t in st.targets[0].elts)):
+            raise Untranslatable(f'statement {i} is not the unpacking of argument {prm}')
+        names = [t.id for t in st.targets[0].elts]
+        if set(names) & set(params):
+            raise Untranslatable('a parameter is rebound')
+        unpack.append(names)
+        assigned |= set(names)
+    lets = []
+    for st in body[len(params):-1]:
+        if not (isinstance(st, ast.Assign) and len(st.targets) == 1 and isinstance(st.targets[0], ast.Name)):
+            raise Untranslatable('statement ' + type(st).__name__)
+        v = st.targets[0].id
+        if v in params:
+            raise Untranslatable('a parameter is rebound')
+        lets.append(f'({_name(v)}, {_dexpr(st.value, params)})')
+        assigned.add(v)
+    rv = body[-1].value
+    if isinstance(rv, (ast.List, ast.Tuple)):
+        rets = [_dexpr(e, params) for e in rv.elts]
+    elif isinstance(rv, ast.Call) and isinstance(rv.func, ast.Name) and rv.func.id == 'list' and not rv.args and not rv.keywords \
+            and 'list' not in assigned and 'list' not in params:
+        rets = []
+    else:
+        raise Untranslatable('return value is not a list display')
+    return ('(mkDProg ' + kv.blist(kv.blist(_name(n) for n in ns) for ns in unpack) + ' ' + kv.blist(lets) + ' ' + kv.blist(rets) + ')',
+            {'unpack': unpack, 'lets': len(lets), 'rets': len(rets), 'divisions': sum(isinstance(n, ast.Div) for n in ast.walk(fd))})
+
+
+def generate_div(alg, op, keys_in):
+    """-> (keys_out, func, source text) of alg.inv[keys] / alg.div[keys_x, keys_y]; generation may raise (ZeroDivisionError for an
+    identically zero denominator)."""
+    od = getattr(alg, op)
+    keys_out, func = od[tuple(keys_in[0])] if op == 'inv' else od[tuple(tuple(k) for k in keys_in)]
+    return tuple(int(k) for k in keys_out), func, source_of(func)
+
+
+def _case_divlike(pool, spec, alg, op, keys_in, options):
+    keys_out, func, src = generate_div(alg, op, keys_in)
+    term, info = program_div_of(func, src)
+    ref, dfn = pool.ref(spec)
+    ks = ' '.join(kv.zlist(k) for k in keys_in)
+    chk = f'validate_{op} A {ks} {kv.zlist(keys_out)} {term}'
+    return {'check': algs.with_alg(ref, chk), 'defs': [dfn],
+            'meta': {'spec': spec, 'op': op, 'keys_in': [list(map(int, k)) for k in keys_in], 'keys_out': list(keys_out), 'source': src,
+                     'options': options or {}, 'func': func, 'lets': info['lets'], 'divisions': info['divisions'], 'level': 'fraction'}}
+
+
+def case_inv(pool, spec, alg, keys, options=None):
+    """the case dict for kv.run_cases (imports=IMPORTS_DIV, prelude=PRELUDE): `validate_inv A keys keys_out program = true`.
+    Raises Untranslatable; whatever generating the function raises (ZeroDivisionError) propagates."""
+    return _case_divlike(pool, spec, alg, 'inv', [tuple(keys)], options)
+
+
+def case_div(pool, spec, alg, keys_x, keys_y, options=None):
+    """`validate_div A keys_x keys_y keys_out program = true`"""
+    return _case_divlike(pool, spec, alg, 'div', [tuple(keys_x), tuple(keys_y)], options)
+
+
+def _qc(fr):
+    return f'(Qc_of {kv.Z(fr.numerator)} {kv.Z(fr.denominator)})'
+
+
+def concrete_case_div(pool, meta, inputs):
+    """after a failed validation: the real function on concrete rationals (fractions.Fraction) against the model over Qc on the
+    same rationals, blade by blade (absent = 0).  The model raising (ZeroDivisionError: the denominator vanishes there) or the
+    function raising / returning non-rationals is no witness: `check` is then `true` and meta['usable'] False."""
+    from fractions import Fraction
+    ref, dfn = pool.ref(meta['spec'])
+    usable = True
+    try:
+        out = list(meta['func'](*[list(x) for x in inputs]))
+        if not all(isinstance(v, (int, Fraction)) and not isinstance(v, bool) for v in out):
+            usable = False
+        else:
+            out = [Fraction(v) for v in out]
+    except Exception as e:  # noqa
+        out, usable = f'{type(e).__name__}: {e}', False
+    mvs = ' '.join(kv.blist(kv.pair(kv.Z(k), _qc(Fraction(v))) for k, v in zip(ks, xs)) for ks, xs in zip(meta['keys_in'], inputs))
+    model = f'({meta["op"]}_model Qcops Qcdv Qcisz idF A {mvs})'
+    if usable:
+        chk = (f'match {model} with Err _ => true | Ok r_ => agree_coeff_Qc A {kv.zlist(meta["keys_out"])} '
+               f'{kv.blist(_qc(v) for v in out)} (Ok r_) end')
+    else:
+        chk = 'true'
+    show = f'match {model} with Ok r_ => map (fun kv_ => (fst kv_, Qcanon.this (snd kv_))) r_ | Err _ => [] end'
+    return {'check': algs.with_alg(ref, chk), 'defs': [dfn], 'show': algs.with_alg(ref, show, '[]'),
+            'meta': {'inputs': [[str(v) for v in x] for x in inputs], 'output': [str(v) for v in out] if usable else str(out)[:300],
+                     'usable': usable}}
